@@ -53,11 +53,23 @@ func tAdd(x, y *Term) *Term {
 	if x.op == "const" && y.op == "const" {
 		return tConst(new(big.Int).Add(x.val, y.val))
 	}
+	if x.op == "const" && x.val.Sign() == 0 {
+		return y
+	}
+	if y.op == "const" && y.val.Sign() == 0 {
+		return x
+	}
 	return mkTerm(&Term{op: "+", args: []*Term{x, y}, lo: addB(x.lo, y.lo), hi: addB(x.hi, y.hi)})
 }
 func tSub(x, y *Term) *Term {
 	if x.op == "const" && y.op == "const" {
 		return tConst(new(big.Int).Sub(x.val, y.val))
+	}
+	if x == y {
+		return tInt(0)
+	}
+	if y.op == "const" && y.val.Sign() == 0 {
+		return x
 	}
 	// x - c*q where q = x div c  ==>  x mod c
 	if y.op == "*" && y.args[0].op == "const" {
@@ -70,6 +82,12 @@ func tSub(x, y *Term) *Term {
 func tMulC(x *Term, c *big.Int) *Term {
 	if x.op == "const" {
 		return tConst(new(big.Int).Mul(x.val, c))
+	}
+	if c.Sign() == 0 {
+		return tInt(0)
+	}
+	if c.Cmp(big.NewInt(1)) == 0 {
+		return x
 	}
 	var lo, hi *big.Int
 	if x.lo != nil && x.hi != nil {
@@ -150,6 +168,22 @@ func tAnd(x, y *Term) *Term {
 		return y
 	}
 	return mkTerm(&Term{op: "and", args: []*Term{x, y}, isBool: true})
+}
+
+func tOr(x, y *Term) *Term {
+	if x.op == "bconst" {
+		if x.bval {
+			return x
+		}
+		return y
+	}
+	if y.op == "bconst" {
+		if y.bval {
+			return y
+		}
+		return x
+	}
+	return mkTerm(&Term{op: "or", args: []*Term{x, y}, isBool: true})
 }
 
 func (t *Term) smt(sb *strings.Builder) {
@@ -376,6 +410,12 @@ func symBinop(op token.Token, t types.Type, x, y value) value {
 		}
 		p := curPath()
 		c := yt.val
+		if c.Cmp(big.NewInt(1)) == 0 {
+			if op == token.QUO {
+				return mkSym(k, xt)
+			}
+			return concretize(k, tInt(0))
+		}
 		key := fmt.Sprintf("%d/%s", xt.id, c.String())
 		var q, r *Term
 		if qr, ok := p.divMemo[key]; ok {
